@@ -1,3 +1,67 @@
-(* further ops: floats, value trees, compat, histories *)
-let dec_case (f : string array) : string = failwith ("unknown decode type " ^ f.(1))
-let run_case (f : string array) : string = failwith ("unknown op " ^ f.(0))
+(* further ops: compat, frame (append semantics), buffer histories, value trees *)
+open Model
+open Driver_fp.Conv
+
+let dec_case (f : string array) : string =
+  match Driver_fp.dec_case f with Some r -> r | None -> failwith ("unknown decode type " ^ f.(1))
+
+let str_res (r : ((byte list * z) * errk option) option) : string =
+  match r with
+  | Some ((v, p), None) -> Printf.sprintf "ok %s %s" (string_of_z p) (hx v)
+  | Some (_, Some _) -> "err"
+  | None -> "abn # model"
+
+let handler_of = ref (fun (_ : string) (_ : byte list) -> (fun _ -> { h_pp = Z0; h_err = None; h_havoc = [] }))
+
+let handler_obs_ref = ref (fun (_ : mres) (_ : bool) (_ : int) -> "")
+
+let replace_all (s : string) (a : char) (b : char) = String.map (fun c -> if c = a then b else c) s
+
+let run_hist (f : string array) : string =
+  let buf = ref (if f.(1) = "nobuf" then None else
+                   Some (match parse_stack f.(1) with None -> [] | Some l -> l)) in
+  let outs = ref [] in
+  for i = 2 to Array.length f - 1 do
+    let parts = String.split_on_char ':' f.(i) in
+    let op = List.nth parts 0 and d = unhex (List.nth parts 1) in
+    let pres_s r = (match r with
+        | Inl (p, None) -> "ok_" ^ string_of_z p
+        | Inl (_, Some _) -> "err"
+        | Inr _ -> "abn") in
+    let o = (match op with
+        | "skip" -> let (r, b) = i_SkipValue d !buf in buf := b; pres_s r
+        | "skipfast" -> let (r, b) = i_SkipValueFast d !buf in buf := b; pres_s r
+        | "valid" -> let (r, b) = i_Valid d !buf in buf := b;
+          (match r with Some v -> b2s v | None -> "abn")
+        | "harr" | "hobj" ->
+          let spec = replace_all (List.nth parts 2) ';' ',' in
+          let h = !handler_of spec d in
+          let st = (match !buf with None -> [] | Some l -> l) in
+          let r = if op = "harr" then i_handleArrayValues d h st else i_handleObjectValues d h st in
+          (match !buf, r with Some _, MDone (_, _, s) -> buf := Some (stack_of s) | _ -> ());
+          let o = !handler_obs_ref r (op = "hobj") (List.length d) in
+          let o = (match String.index_opt o '#' with Some i -> String.trim (String.sub o 0 i) | None -> o) in
+          replace_all o ' ' '_'
+        | _ -> failwith ("bad hist op " ^ op)) in
+    outs := o :: !outs
+  done;
+  String.concat " ; " (List.rev !outs)
+
+let run_case (f : string array) : string =
+  match f.(0) with
+  | "compat" -> hx (stdLibCompatibleString (unhex f.(1)))
+  | "compatb" -> hx (stdLibCompatibleStringBytes (unhex f.(1)) (unhex f.(2)))
+  | "frame" ->
+    let d = unhex f.(2) and dst = (if f.(3) = "nil" then [] else unhex f.(3)) in
+    (match f.(1) with
+     | "rsb" -> str_res (i_ReadStringBytes d dst)
+     | "usc" -> str_res (i_UnescapeStringContent d dst)
+     | "compatb" -> Printf.sprintf "ok 0 %s" (hx (stdLibCompatibleStringBytes d dst))
+     | "rs" ->
+       (match i_ReadString d (if f.(3) = "nil" then None else Some dst) with
+        | Some (((v, p), None), _) -> Printf.sprintf "ok %s %s" (string_of_z p) (hx v)
+        | Some ((_, Some _), _) -> "err"
+        | None -> "abn # model")
+     | o -> failwith ("bad frame op " ^ o))
+  | "hist" -> run_hist f
+  | _ -> failwith ("unknown op " ^ f.(0))
